@@ -1014,8 +1014,15 @@ def same_under_ambient(op, kinds=AMBIENT_KINDS, pick=None):
         try:
             with ambient(kind):
                 got = op()
-        except Exception:
+        except (DeprecationWarning, PendingDeprecationWarning, FutureWarning) as e:
+            # not a warning about the caller's data: the library itself uses something deprecated,
+            # and a valid call fails for every caller who runs with warnings as errors
+            return (f"under ambient state '{kind}' the call fails with {type(e).__name__}: "
+                    f"{str(e)[:120]} (raised from the library's own code)")
+        except Exception as e:
             AMBIENT_STATS["calls_that_raised_under_another_ambient_state"] += 1
+            k_ = "raised_under_ambient:" + kind + ":" + type(e).__name__
+            AMBIENT_STATS[k_] = AMBIENT_STATS.get(k_, 0) + 1
             continue
         r = _same(ref, got)
         if r:
